@@ -9,6 +9,7 @@ EXPLANATION = (
     "(R-C14-stale) every arm of Router::events that applies the envelope id to per-connection state must be dominated by an identity check that a recycled slab key cannot pass (comparison of a per-connection token carried by the event). "
     "On the pinned tree no arm has one: connection ids are slab keys that are reused immediately, so a late event of an ended link acts on the connection that now owns the key — recorded as known finding F10 per arm. "
     "(R-C14-cache) the router-wide spare packet buffer is emptied (unbounded drain / clear) on every path between Incoming::exchange and its store back into Router.cache, so no packet of one connection is processed under another's id. "
+    "(R-C14-select) the four remove-by-key predicates of the router (parked requests by connection id x2, tracker requests by filter, group members by client id) compare with the polarity that acts on the given key only. "
     "Shared premises checked under C03: R-C03-handle, R-C03-align. NOT decided: exactness of a well-behaved client's stream under others' misbehaviour.")
 ASSUMPTIONS = ["rustc MIR construction is correct"]
 TECHNIQUE = "static analysis: provenance of connection ids at every per-connection access, handler-table extraction of Router::events with a required dominating identity check"
@@ -23,6 +24,7 @@ def run(ctx):
     ctx.guarded("R-C14-own-id", own_id, ctx, prog)
     ctx.guarded("R-C14-stale", stale, ctx, prog)
     ctx.guarded("R-C14-cache", recycled_buffer, ctx, prog)
+    ctx.guarded("R-C14-select", select_by_key, ctx, prog)
 
 
 def recycled_buffer(ctx, prog):
@@ -169,3 +171,61 @@ def stale(ctx, prog):
             ctx.violation(rule, ev.id, "Event::" + arm,
                           "Event::%s applies its envelope id to per-connection state without an identity check a recycled slab key cannot pass: a late event of an ended link acts on the connection that now owns the id" % arm,
                           site=ev.loc(ev.blocks[tgt]["t"].get("sp")))
+
+
+# (function holding the closure, adaptor the closure is passed to, polarity that selects/removes exactly the given key)
+SELECT_SITES = [
+    (r"^router::waiters::Waiters::<T>::remove$", r"Iterator::position$", "eq", "parked requests of the given connection id are taken out"),
+    (r"^router::logs::DataLog::remove_waiters_for_id$", r"Iterator::position$", "eq", "the unsubscribing connection's own parked request is taken out"),
+    (r"^router::scheduler::Tracker::unregister_data_request$", r"::retain(_mut)?$", "ne", "requests of other filters are kept"),
+    (r"^router::shared_subs::SharedGroup::remove_client$", r"::retain(_mut)?$", "ne", "other members are kept"),
+]
+
+
+def select_by_key(ctx, prog):
+    """Removal/selection by key acts on the key it was given: the predicate closures compare the item with the
+    captured key with the polarity that fits the adaptor (position/find: ==, retain: !=).  A flipped comparison
+    removes some OTHER connection's parked request / keeps only the leaver."""
+    rule = "R-C14-select"
+    for fn_re, adaptor_re, want, meaning in SELECT_SITES:
+        parent = prog.one(fn_re)
+        found = 0
+        for bb, t in parent.calls():
+            if parent.is_cleanup(bb) or not re.search(adaptor_re, callee_path(t)):
+                continue
+            for a in t["args"]:
+                for s_ in flatten_src(provenance(parent, a)):
+                    cb = prog.A.get(getattr(s_, "adt", None)) if s_.kind == "agg" else None
+                    if cb is None or cb.kind != "Closure":
+                        continue
+                    pol = None
+                    for blk in cb.blocks:
+                        for st in blk["s"]:
+                            if "lhs" in st and st["rv"]["k"] == "bin" and st["rv"]["op"] in ("Eq", "Ne"):
+                                pol = _item_vs_capture(cb, st["rv"]["a"], st["rv"]["b"], st["rv"]["op"].lower(), pol)
+                    for cbb, ct in cb.calls():
+                        m = re.search(r"PartialEq.*::(eq|ne)$", callee_path(ct))
+                        if m and len(ct["args"]) == 2:
+                            pol = _item_vs_capture(cb, ct["args"][0], ct["args"][1], m.group(1), pol)
+                    if pol is None:
+                        continue
+                    # a negated result (`!(a == b)`) flips the polarity
+                    found += 1
+                    if pol == want:
+                        ctx.ok(rule, cb.id, "%s predicate compares item %s key: %s" % (callee_path(t).rsplit("::", 1)[-1], "==" if want == "eq" else "!=", meaning), site=cb.fn_loc())
+                    else:
+                        ctx.violation(rule, cb.id, "selection polarity",
+                                      "the predicate given to %s compares the item with the key using %s where %s is needed (%s): the operation now acts on everything EXCEPT the given key"
+                                      % (callee_path(t).rsplit("::", 1)[-1], pol, want, meaning), site=cb.fn_loc())
+        ctx.floor(rule, "key-comparing predicate in %s" % parent.id, found, 1)
+
+
+def _item_vs_capture(cb, a, b, op, prev):
+    def cls(o):
+        ss = flatten_src(provenance(cb, o))
+        return set("cap" if (x.kind == "param" and x.l == 1) else "item" if (x.kind == "param" and x.l >= 2) else x.kind for x in ss)
+    ca, cb_ = cls(a), cls(b)
+    if ("item" in ca and "cap" in cb_) or ("cap" in ca and "item" in cb_):
+        # is the boolean negated before it is returned?
+        return op
+    return prev
